@@ -39,6 +39,28 @@ type vpnRoute struct {
 	Src    string // "p<idx>" or "vrf:<name>"
 	Tag    uint32
 	VRF    string // set for routes originated in / exported from a VRF
+	LP     int    // LOCAL_PREF (shared NLRIs announced by several PEs: the highest wins)
+}
+
+// rkey is the index of a route in vpnState.routes: the NLRI plus, for NLRIs that several
+// neighbours announce, the announcing neighbour.
+func rkey(key, src string, shared bool) string {
+	if shared {
+		return key + "@" + src
+	}
+	return key
+}
+
+// bestRoutes reduces the announced routes to one per NLRI (highest LOCAL_PREF; the generator
+// makes them distinct), which is what a non-ADD-PATH receiver must hold.
+func (st *vpnState) bestRoutes() map[string]*vpnRoute {
+	best := map[string]*vpnRoute{}
+	for _, r := range st.routes {
+		if b := best[r.Key]; b == nil || r.LP > b.LP {
+			best[r.Key] = r
+		}
+	}
+	return best
 }
 
 type vpnState struct {
@@ -106,6 +128,10 @@ func genVPN(seed uint64, tier, mode string) *Script {
 	if g.p(60) {
 		sc.Peers = append(sc.Peers, PeerCfg{Idx: 3, Addr: peerAddr(3), RouterID: peerRID(3), Kind: "ebgp", AS: 65102, Families: []string{"ipv4-unicast"}, Vrf: "blue", Late: true})
 	}
+	// an observer PE that negotiates RT-Constrain and announces nothing but memberships
+	obs := len(sc.Peers)
+	sc.Peers = append(sc.Peers, PeerCfg{Idx: obs, Addr: peerAddr(obs), RouterID: peerRID(obs), Kind: "rrclient", AS: 65000, Families: []string{"l3vpn-ipv4-unicast", "rtc"}})
+	nCE := obs - 2
 	var ops []Op
 	add := func(o Op) { o.Actor = 0; ops = append(ops, o) }
 	add(Op{Kind: "addvrf", Arg: "red"})
@@ -125,6 +151,16 @@ func genVPN(seed uint64, tier, mode string) *Script {
 	for i := 0; i < n; i++ {
 		r := g.n(100)
 		switch {
+		case r < 10: // both PEs can announce the same NLRI (same RD): best-path hand-over between sources
+			p := g.n(2)
+			nrt := g.rng(1, 2)
+			var rts []string
+			for k := 0; k < nrt; k++ {
+				rts = append(rts, fmt.Sprint(g.rng(1, 4)))
+			}
+			add(Op{Kind: "vpnann", Peer: p, Prefix: fmt.Sprintf("10.99.%d.0/24", g.n(2)), Arg: strings.Join(rts, ","), N: 0, Arg2: "shared"})
+		case r < 14:
+			add(Op{Kind: "vpnwd", Peer: g.n(2), Prefix: fmt.Sprintf("10.99.%d.0/24", g.n(2)), N: 0, Arg2: "shared"})
 		case r < 30: // PE announces a VPN route
 			p := g.n(2)
 			nrt := g.rng(1, 2)
@@ -139,19 +175,19 @@ func genVPN(seed uint64, tier, mode string) *Script {
 			rdv := g.n(2)
 			add(Op{Kind: "vpnwd", Peer: p, Prefix: fmt.Sprintf("10.%d.%d.0/24", 10+p, rdv*4+g.n(4)), N: rdv})
 		case r < 50: // CE announces
-			ci := 2 + g.n(len(sc.Peers)-2)
+			ci := 2 + g.n(nCE)
 			add(Op{Kind: "ceann", Peer: ci, Prefix: fmt.Sprintf("10.%d.%d.0/24", 20+ci, g.n(3))})
 		case r < 55:
-			ci := 2 + g.n(len(sc.Peers)-2)
+			ci := 2 + g.n(nCE)
 			add(Op{Kind: "cewd", Peer: ci, Prefix: fmt.Sprintf("10.%d.%d.0/24", 20+ci, g.n(3))})
 		case r < 68: // RTC membership
-			p := g.n(2)
+			p := pick(g, []int{0, 1, obs, obs})
 			add(Op{Kind: "rtcann", Peer: p, N: g.rng(1, 4)})
 		case r < 76:
-			p := g.n(2)
+			p := pick(g, []int{0, 1, obs, obs})
 			add(Op{Kind: "rtcwd", Peer: p, N: g.rng(1, 4)})
 		case r < 79:
-			add(Op{Kind: "rtcdefault", Peer: g.n(2), Arg: pick(g, []string{"ann", "wd"})})
+			add(Op{Kind: "rtcdefault", Peer: pick(g, []int{0, 1, obs}), Arg: pick(g, []string{"ann", "wd"})})
 		case r < 84:
 			add(Op{Kind: "addvrf", Arg: pick(g, []string{"green", "grey"})})
 		case r < 88:
@@ -278,14 +314,28 @@ func vpnOp(w *simWorld, actor int, op *Op) {
 		st.serial++
 		rts := parseInts(op.Arg)
 		rd := fmt.Sprintf("65000:%d", 100*(op.Peer+1)+op.N)
-		spec := &AttrSpec{Origin: 0, NextHop: p.cfg.Addr, MED: -1, LocalPref: 100, ExtComms: rtStrings(rts)}
+		shared := op.Arg2 == "shared"
+		lp := 100
+		if shared {
+			rd = "65000:900"
+			lp = 100 + st.serial
+		}
+		src := fmt.Sprintf("p%d", op.Peer)
+		spec := &AttrSpec{Origin: 0, NextHop: p.cfg.Addr, MED: -1, LocalPref: int64(lp), ExtComms: rtStrings(rts)}
 		r := &annRoute{Tag: mkTag(op.Peer, st.serial), Fam: famVPN4, Prefix: op.Prefix, Spec: spec, Src: op.Peer, Label: uint32(100 + st.serial), RD: rd}
 		w.mu.Lock()
 		w.tags[r.Tag] = r
 		w.mu.Unlock()
 		if p.announce(r) {
 			key := rd + ":" + op.Prefix
-			st.routes[key] = &vpnRoute{Key: key, Prefix: op.Prefix, RTs: rts, Src: fmt.Sprintf("p%d", op.Peer), Tag: r.Tag}
+			if shared {
+				for _, o := range st.routes {
+					if o.Key == key && o.Src != src {
+						w.probe("vpn_best_handover")
+					}
+				}
+			}
+			st.routes[rkey(key, src, shared)] = &vpnRoute{Key: key, Prefix: op.Prefix, RTs: rts, Src: src, Tag: r.Tag, LP: lp}
 			w.probe("vpn_announce")
 		}
 		vpnSettle()
@@ -295,14 +345,14 @@ func vpnOp(w *simWorld, actor int, op *Op) {
 			return
 		}
 		rd := fmt.Sprintf("65000:%d", 100*(op.Peer+1)+op.N)
-		key := rd + ":" + op.Prefix
+		shared := op.Arg2 == "shared"
+		if shared {
+			rd = "65000:900"
+		}
+		key := rkey(rd+":"+op.Prefix, fmt.Sprintf("p%d", op.Peer), shared)
 		if st.routes[key] == nil {
 			return
 		}
-		p.mu.Lock()
-		old := p.sent[viewKey{famVPN4, 0, op.Prefix}]
-		p.mu.Unlock()
-		_ = old
 		msg := p.buildWithdraw(famVPN4, op.Prefix, 0, 0, rd)
 		p.write(msg)
 		delete(st.routes, key)
@@ -441,6 +491,7 @@ func (w *simWorld) vpnCompare(st *vpnState) {
 		w.mu.Unlock()
 	}
 	var fp []string
+	best := st.bestRoutes()
 	for _, p := range w.peers {
 		if !p.isUp() {
 			continue
@@ -451,7 +502,7 @@ func (w *simWorld) vpnCompare(st *vpnState) {
 			// CE: plain routes of everything importable into its VRF
 			v := st.vrfs[p.cfg.Vrf]
 			want := map[string]uint32{}
-			for _, r := range st.routes {
+			for _, r := range best {
 				if r.Src != src && v != nil && intersects(r.RTs, v.Import) {
 					want[r.Prefix] = r.Tag
 				}
@@ -480,7 +531,7 @@ func (w *simWorld) vpnCompare(st *vpnState) {
 		// PE: VPN routes, filtered by its RT memberships when RT-Constrain was negotiated
 		rtc := p.hasFamily(famRTC)
 		want := map[string]*vpnRoute{}
-		for _, r := range st.routes {
+		for _, r := range best {
 			if r.Src == src {
 				continue
 			}
